@@ -565,7 +565,7 @@ def variant_index(an, agg):
 
 
 def compute_threads(an):
-    """(tm, arms, complete):  tm: edge node -> (switch block S, forced label value k) - when a switch tests the variant
+    """(tm, arms, complete):  tm: edge node -> [(switch block S, forced label value k)] - when a switch tests the variant
     of an enum value (or a boolean) that was joined just before it, and the value flowing in along an incoming edge of
     the join is known (an aggregate of a known variant, a constant boolean, the residual of `?`), a path entering
     through that edge can only take one arm.  Joins nested before the join (if / else-if chains building the value) are
@@ -586,6 +586,22 @@ def compute_threads(an):
         return a not in headers and cfg.dominates(a, b)
 
     def kind(v, boolneg):
+        if isinstance(boolneg, tuple) and boolneg[0] == "payload":
+            # the switch tests a boolean field of one variant of the joined enum value (`if helper(..)? {..}`)
+            _, k0, fi, neg = boolneg
+            if v[0] == "call" and v[1].endswith("from_residual"):
+                return "skip" if k0 == 0 else None
+            if v[0] != "agg":
+                return None
+            vi = variant_index(an, v)
+            if vi is None:
+                return None
+            if vi != k0:
+                return "skip"           # this way in leaves through the other arm of the variant test
+            if fi >= len(v[2]):
+                return None
+            cb = _const_bool(an, v[2][fi])
+            return None if cb is None else (int(not cb) if neg else int(cb))
         if boolneg == "int":
             return v[1] if v[0] == "const" and isinstance(v[1], int) else None
         if boolneg is not None:
@@ -606,6 +622,8 @@ def compute_threads(an):
                 continue
             v = an.read(st, L)
             k = kind(v, boolneg)
+            if k == "skip":
+                continue
             if k is not None:
                 res.append((e.node, k))
             elif v[0] == "phi" and v != ("phi", J, L) and depth < 12 and v[1] != J and \
@@ -626,10 +644,17 @@ def compute_threads(an):
         if D[0] == "discr":
             tracked = D[1][1] if D[1][0] == "try" else D[1]
         elif info.get("dty") == "bool":
-            if D[0] == "not":
-                tracked, boolneg = D[1], True
+            neg = False
+            D0 = D
+            if D0[0] == "not":
+                D0, neg = D0[1], True
+            if D0[0] == "proj" and D0[2][0] == "f" and D0[1][0] == "proj" and D0[1][2][0] == "dc":
+                inner = D0[1][1]
+                if inner[0] == "try":
+                    inner = inner[1]
+                tracked, boolneg = inner, ("payload", D0[1][2][1], D0[2][1], neg)
             else:
-                tracked, boolneg = D, False
+                tracked, boolneg = D0, neg
         elif D[0] == "phi":
             tracked, boolneg = D, "int"     # a small integer chosen per branch and dispatched on right after
         if tracked is None or tracked[0] != "phi" or tracked[2][0] != "local":
@@ -639,8 +664,9 @@ def compute_threads(an):
             continue
         res, allk = classify(J, tracked[2], boolneg)
         for n, k in res:
-            if n not in tm:
-                tm[n] = (S_, k)
+            lst = tm.setdefault(n, [])
+            if not any(x[0] == S_ for x in lst):
+                lst.append((S_, k))
                 arms.setdefault((S_, k), []).append(n)
         if allk and res:
             complete.add(S_)
